@@ -289,11 +289,14 @@ func captureStdout() (restore func(), read func() string) {
 }
 
 var reLine = regexp.MustCompile(`\bline \d+(:\d+)?`)
+var reAddr = regexp.MustCompile(`:\d+\(line N\)`)
 var reAt = regexp.MustCompile(`\bat [A-Za-z_][A-Za-z_0-9.]*\(line N\)`)
 
 // normMsg removes source positions from a message.
 func normMsg(s string) string {
 	s = reLine.ReplaceAllString(s, "line N")
+	// "at defer main:20(line N)": the bytecode address of a deferred call
+	s = reAddr.ReplaceAllString(s, ":N(line N)")
 	// call-frame lines of a panic report: "  at: main 'verif.ego'  40  (file verif.ego)"
 	s = reFrame.ReplaceAllString(s, "  at: FRAME")
 	return s
@@ -1120,7 +1123,7 @@ func cliConfirm(c Case, relation string) (note string, ok bool) {
 	if c.Kind == "fragment" {
 		args = append(args, "--fragment")
 	}
-	r1 := cli(d, 60*time.Second, "", append(args, p)...)
+	r1 := cli(d, 45*time.Second, "", append(args, p)...)
 	if r1.TimedOut || r1.Err != "" {
 		return "cli: could not run ego fmt (" + r1.Err + ")", true
 	}
@@ -1349,6 +1352,47 @@ func finish(c Case, out *vkit.Outcome, fs []finding) {
 	out.Fail = &vkit.Failure{Sig: sig, Observed: pick.observed + note, Expected: pick.expected}
 }
 
+// hasEmptyStmt reports whether the "{}" token occurs where a statement starts.
+func hasEmptyStmt(raw []tok) bool {
+	for i, t := range raw {
+		if !isSpecial(t, "{}") {
+			continue
+		}
+		if i == 0 || isSpecial(raw[i-1], ";") || isSpecial(raw[i-1], "{") || isSpecial(raw[i-1], "}") || isSpecial(raw[i-1], ":") {
+			return true
+		}
+	}
+	return false
+}
+
+// whereCompileError improves the construct name of a "does not compile"
+// failure: the first token difference may be a harmless one in front of the
+// real one, so the statement the compiler complains about in the formatted
+// text is looked at as well; when it is a control-flow header with a literal in
+// it (the way a cut-off header looks), that is the name.
+func whereCompileError(where, formatted, compileErr string) string {
+	m := reLineNo.FindStringSubmatch(compileErr)
+	if m == nil {
+		return where
+	}
+	var l int
+	fmt.Sscan(m[1], &l)
+	raw := rawTokens(formatted)
+	for _, line := range []int{l, l - 1, l - 2, l - 3, l - 4} {
+		if line < 1 {
+			break
+		}
+		if c := classifyLines(raw, line, line, ""); c == "composite-literal-in-control-header" {
+			return c
+		}
+	}
+	return where
+}
+
+var reBlankWithSpaces = regexp.MustCompile(`(?m)^[ \t]+$`)
+
+var reLineNo = regexp.MustCompile(`line (\d+)`)
+
 const runLimitMin = 20 * time.Second
 
 var rePos = regexp.MustCompile(`line (\d+):(\d+)`)
@@ -1442,6 +1486,17 @@ func oracle(c Case) vkit.Outcome {
 		where := canonical(ctx, "", what)
 		if from, to := locateParseFailure(c.Src, raw); from > 0 {
 			where = classifyLines(raw, from, to, what)
+			if where == "expr-stmt" || where == "unlocated" {
+				// a line inside a bracketed construct: name the construct
+				for i, t := range raw {
+					if t.line >= from && !isSpecial(t, ";") {
+						if c2 := contextAt(raw, i); strings.Contains(c2, "composite-literal") {
+							where = canonical(c2, "", what)
+						}
+						break
+					}
+				}
+			}
 		}
 		add("format-error", where, "format error: "+msg, "formatting succeeds on a source the compiler accepts")
 		finish(c, &out, fs)
@@ -1468,7 +1523,7 @@ func oracle(c Case) vkit.Outcome {
 		case r1.Hung:
 			add("not-compiling", where+" (does not return)", fmt.Sprintf("original compiled and ran in %v; formatted source did not return after %v and ignores interrupts\nformatted:\n%s", r0.Elapsed, limit, f1), "the formatted file compiles and behaves the same")
 		case r1.CompileErr != "":
-			add("not-compiling", where, "formatted source does not compile: "+r1.CompileErr+"\nformatted:\n"+f1, "the formatted file compiles")
+			add("not-compiling", whereCompileError(where, f1, r1.CompileErr), "formatted source does not compile: "+r1.CompileErr+"\nformatted:\n"+f1, "the formatted file compiles")
 		case r1.TimedOut:
 			add("behaviour", where+" (nontermination)", fmt.Sprintf("original finished in %v, formatted source still running after %v\nformatted:\n%s", r0.Elapsed, limit, f1), "same output and outcome")
 		default:
@@ -1479,7 +1534,7 @@ func oracle(c Case) vkit.Outcome {
 	case "corpus-test":
 		r1 := execEgo(f1, "test", false, 0)
 		if r1.CompileErr != "" || r1.GoPanic != "" || r1.Hung {
-			add("not-compiling", where, "formatted source does not compile: "+r1.CompileErr+r1.GoPanic, "the formatted file compiles")
+			add("not-compiling", whereCompileError(where, f1, r1.CompileErr), "formatted source does not compile: "+r1.CompileErr+r1.GoPanic, "the formatted file compiles")
 		} else if sameToks {
 			out.Labels = append(out.Labels, "corpus: same program (tokens identical)")
 		} else if !haveCLI() {
@@ -1509,7 +1564,7 @@ func oracle(c Case) vkit.Outcome {
 	case "corpus-file":
 		r1 := execEgo(f1, "run", false, 0)
 		if r1.CompileErr != "" || r1.GoPanic != "" || r1.Hung {
-			add("not-compiling", where, "formatted source does not compile: "+r1.CompileErr+r1.GoPanic, "the formatted file compiles")
+			add("not-compiling", whereCompileError(where, f1, r1.CompileErr), "formatted source does not compile: "+r1.CompileErr+r1.GoPanic, "the formatted file compiles")
 		} else if sameToks {
 			out.Labels = append(out.Labels, "corpus: same program (tokens identical)")
 		} else {
@@ -1519,10 +1574,18 @@ func oracle(c Case) vkit.Outcome {
 
 	// (4) idempotence
 	f2, err := fmtSrc(f1, c.Kind)
-	if err != nil {
+	if len(fs) > 0 && fs[len(fs)-1].relation == "not-compiling" {
+		// the output is not valid source (already recorded); how it formats a
+		// second time says nothing new
+	} else if err != nil {
 		add("idempotence", "reformat-error "+where, "formatting the formatted text fails: "+err.Error()+"\nformatted:\n"+f1, "fmt(fmt(x)) == fmt(x)")
 	} else if f2 != f1 {
-		add("idempotence", describeTextDiff(f1, f2), "fmt(fmt(x)) != fmt(x):\n"+clipS(diffLines(f1, f2), 1200), "fmt(fmt(x)) == fmt(x)")
+		what := describeTextDiff(f1, f2)
+		if (what == "blank-lines" || what == "layout") && hasEmptyStmt(raw) {
+			// an empty statement at the top level prints as an empty line
+			what = "whitespace-only-line"
+		}
+		add("idempotence", what, "fmt(fmt(x)) != fmt(x):\n"+clipS(diffLines(f1, f2), 1200), "fmt(fmt(x)) == fmt(x)")
 	}
 
 	// (5) comments
@@ -1533,6 +1596,7 @@ func oracle(c Case) vkit.Outcome {
 	return out
 }
 
+var reInlineComment = regexp.MustCompile(`/\*.*?\*/|//.*$`)
 var reLabelLine = regexp.MustCompile(`^[A-Za-z_][A-Za-z_0-9]*:$`)
 
 // locateParseFailure narrows a format (parse) error down to the smallest
@@ -1567,6 +1631,7 @@ func locateParseFailure(src string, raw []tok) (int, int) {
 	for i := range lastOpen {
 		lastOpen[i] = -1
 	}
+	crushed := map[int][]int{}
 	for i, t := range raw {
 		if t.line < 1 || t.line > len(lines) || t.cls != tokenizer.SpecialTokenClass {
 			continue
@@ -1576,40 +1641,45 @@ func locateParseFailure(src string, raw []tok) (int, int) {
 			delta[t.line]++
 			lastOpen[t.line] = i
 		case "{}":
-			// "{" and "}" on different lines are one token too; it carries the
-			// line of one of the two
-			if !strings.Contains(lines[t.line-1], "{}") {
-				code := func(l int) string {
-					x := lines[l-1]
-					if k := strings.Index(x, "//"); k >= 0 {
-						x = x[:k]
-					}
-					return strings.TrimSpace(x)
-				}
-				if strings.HasPrefix(code(t.line), "}") {
-					for l := t.line - 1; l >= 1; l-- {
-						if strings.HasSuffix(code(l), "{") {
-							delta[l]++
-							delta[t.line]--
-							lastOpen[l] = i
-							break
-						}
-					}
-				} else {
-					for l := t.line + 1; l <= len(lines); l++ {
-						if strings.HasPrefix(code(l), "}") {
-							delta[t.line]++
-							delta[l]--
-							lastOpen[t.line] = i
-							break
-						}
-					}
-				}
-			}
+			crushed[t.line] = append(crushed[t.line], i)
 		case "(", "[":
 			delta[t.line]++
 		case "}", ")", "]":
 			delta[t.line]--
+		}
+	}
+	// "{" and "}" on different lines are one "{}" token too; it carries the
+	// line of one of the two. Those are the "{}" tokens of a line beyond the
+	// number of "{}" the line shows.
+	code := func(l int) string {
+		x := lines[l-1]
+		if k := strings.Index(x, "//"); k >= 0 {
+			x = x[:k]
+		}
+		return strings.TrimSpace(x)
+	}
+	for l, idx := range crushed {
+		extra := len(idx) - strings.Count(code(l), "{}")
+		for n := 0; n < extra; n++ {
+			if strings.HasPrefix(code(l), "}") && n == 0 {
+				for m := l - 1; m >= 1; m-- {
+					if strings.HasSuffix(code(m), "{") {
+						delta[m]++
+						delta[l]--
+						lastOpen[m] = idx[0]
+						break
+					}
+				}
+			} else {
+				for m := l + 1; m <= len(lines); m++ {
+					if strings.HasPrefix(code(m), "}") {
+						delta[l]++
+						delta[m]--
+						lastOpen[l] = idx[len(idx)-1]
+						break
+					}
+				}
+			}
 		}
 	}
 	fails := func(sel []int) bool {
@@ -1651,7 +1721,7 @@ func locateParseFailure(src string, raw []tok) (int, int) {
 			}
 			d += delta[l]
 			if d <= 0 {
-				if t := strings.TrimSpace(lines[l-1]); start == l && reLabelLine.MatchString(t) {
+				if t := strings.TrimSpace(reInlineComment.ReplaceAllString(lines[l-1], "")); start == l && reLabelLine.MatchString(t) {
 					continue // a label: part of the loop that follows
 				}
 				groups = append(groups, group{start, l})
@@ -1782,6 +1852,16 @@ func classifyLines(raw []tok, from, to int, detail string) string {
 		if headerHasComposite(raw, first, last) {
 			return "composite-literal-in-control-header"
 		}
+		for k := first + 1; k <= last; k++ {
+			if raw[k].cls == tokenizer.ReservedTokenClass && (raw[k].s == "for" || raw[k].s == "if" || raw[k].s == "switch") && headerHasComposite(raw, k, last) {
+				return "composite-literal-in-control-header"
+			}
+		}
+		for k := first; k <= last; k++ {
+			if isSpecial(raw[k], "{") && braceIsComposite(raw, k, false) && k+1 <= last && raw[k+1].line > raw[k].line {
+				return "composite-literal-body"
+			}
+		}
 		return kind
 	}
 	if kind == "type" {
@@ -1795,6 +1875,13 @@ func classifyLines(raw []tok, from, to int, detail string) string {
 	for k := first; k <= last; k++ {
 		if isSpecial(raw[k], "{") && braceIsComposite(raw, k, false) && k+1 <= last && raw[k+1].line > raw[k].line {
 			return "composite-literal-body"
+		}
+	}
+	// the statement could not be narrowed further: name it after a construct
+	// inside it that is known to derail the parser, if there is one
+	for k := first + 1; k <= last; k++ {
+		if raw[k].cls == tokenizer.ReservedTokenClass && (raw[k].s == "for" || raw[k].s == "if" || raw[k].s == "switch") && headerHasComposite(raw, k, last) {
+			return "composite-literal-in-control-header"
 		}
 	}
 	return kind
@@ -1856,12 +1943,19 @@ func describeTextDiff(f1, f2 string) string {
 		y = lb[i]
 	}
 	tx, ty := strings.TrimSpace(x), strings.TrimSpace(y)
+	// a line of white space only in the first output (an empty statement gets
+	// a line of its own) that is gone or moved in the second
+	if reBlankWithSpaces.MatchString(f1) && strings.Join(strings.Fields(f1), " ") != strings.Join(strings.Fields(f2), " ") || tx == "" && x != "" {
+		return "whitespace-only-line"
+	}
+	// the printer writes a trailing comment after two blanks
 	codeOf := func(l string) string {
-		if k := strings.Index(l, "//"); k >= 0 {
-			l = l[:k]
+		k1, k2 := strings.LastIndex(l, "  //"), strings.LastIndex(l, "  /*")
+		if k1 < k2 {
+			k1 = k2
 		}
-		if k := strings.Index(l, "/*"); k >= 0 {
-			l = l[:k]
+		if k1 >= 0 {
+			l = l[:k1]
 		}
 		return strings.TrimSpace(l)
 	}
@@ -1873,13 +1967,10 @@ func describeTextDiff(f1, f2 string) string {
 			return "comment-indentation"
 		}
 		return "indentation"
-	case tx == "" && x != "":
-		// a line of white space only that is gone on the second pass
-		return "whitespace-only-line"
-	case (strings.Contains(tx, "//") || strings.Contains(tx, "/*")) && codeOf(tx) != "" && codeOf(tx) == ty:
+	case codeOf(tx) != tx && codeOf(tx) != "" && codeOf(tx) == ty:
 		// "code  // comment" becomes "code" and the comment moves
 		return "trailing-comment-moves"
-	case (strings.Contains(ty, "//") || strings.Contains(ty, "/*")) && codeOf(ty) != "" && codeOf(ty) == tx:
+	case codeOf(ty) != ty && codeOf(ty) != "" && codeOf(ty) == tx:
 		return "trailing-comment-moves"
 	case tx == "" || ty == "":
 		return "blank-lines"
